@@ -235,6 +235,8 @@ func genFuncR(p *Program, w *World, fn *ssa.Function, con *Contract, excepts map
 			}
 		}
 		e.S.assume(eq(e.get(st0, "G.$held"), heldAtEntry))
+		e.regHeap("G.$rheld", "(Array Int Bool)")
+		e.S.assume(eq(e.get(st0, "G.$rheld"), noLocks))
 		e.Assumptions["A-LOCK-ENTRY: a function is entered holding exactly the locks its contract requires (checked at call sites by the lockorder obligations of property C16)"] = true
 	}
 	// lemmas the contract says it uses: assumed here, proved as obligations of their own
@@ -282,7 +284,7 @@ func genFuncR(p *Program, w *World, fn *ssa.Function, con *Contract, excepts map
 	rets, out := e.runFunc(fn, args, fvs, st0, "top")
 	// lock discipline: every return leaves the lock set as it was at entry
 	for ri, r := range e.topRets {
-		e.oblig(r.st, "lockbalance", fmt.Sprintf("ret%d", ri+1), eq(e.get(r.st, "G.$held"), e.get(st0, "G.$held")), "locks held at return are those held at entry", r.pos)
+		e.oblig(r.st, "lockbalance", fmt.Sprintf("ret%d", ri+1), and(eq(e.get(r.st, "G.$held"), e.get(st0, "G.$held")), eq(e.get(r.st, "G.$rheld"), e.get(st0, "G.$rheld"))), "locks held at return are those held at entry", r.pos)
 	}
 	if len(pkgInvs) > 0 && (con != nil || isInit) {
 		for ri, r := range e.topRets {
